@@ -368,6 +368,7 @@ func c04(c *ev.Ctx) {
 	c04SameReference(c)
 	c04HostileInChild(c)
 	c04Shapes(c)
+	c04DeadNames(c)
 	// a slice / map field is handed out by reference from the per-run field table: no
 	// built-in applied to it may change what the field shows afterwards
 	c16BuiltinsKeepArgument(c, "Tags", func(lit string) (string, map[string]interface{}) {
@@ -794,6 +795,56 @@ func c04Shapes(c *ev.Ctx) {
 			if n := atomic.LoadInt64(&c04MethodCalls) - before; n != 0 {
 				c.Violation(id, "a script ran methods of the host object", map[string]interface{}{
 					"summary": fmt.Sprintf("%s - %s over %T: %d method call(s) on the host object were made by naming them; only functions the host registers may be reached", tc.name, tc.script, tc.obj, n), "script": tc.script})
+			}
+		}
+	}
+}
+
+// c04DeadNames: a parameter, local or loop variable that no longer exists - its function
+// has returned, its loop was left (also early, also by an error in an earlier run) - does
+// not stand between a script and the field of the same name: in a later scope at the same
+// depth, in a later run with another object, the name is the field again (or null).
+func c04DeadNames(c *ev.Ctx) {
+	cases := []struct {
+		script string
+		objs   []map[string]interface{}
+		want   []string
+	}{
+		{`function tag(Name) { return "tag:" + Name; } a = tag("root"); foreach e in [1] { seen = Name; } return [a, seen, Name];`,
+			[]map[string]interface{}{{"Name": "bob"}, {"Name": "eve"}}, []string{"ARRAY:[tag:root, bob, bob]", "ARRAY:[tag:root, eve, eve]"}},
+		{`function f(zz) { local yy; yy = zz; return yy; } a = f(5); foreach e in [1] { r = [zz, yy]; } function g() { return [zz, yy]; } return [a, r, g()];`,
+			[]map[string]interface{}{{}, {"zz": 1}}, []string{"ARRAY:[5, [null, null], [null, null]]", "ARRAY:[5, [1, null], [1, null]]"}},
+		{`foreach Count in [7, 8, 9] { if (Count == 8) { return inner(); } } function inner() { return Count; }`,
+			[]map[string]interface{}{{"Count": 3}, {"Count": 4}}, []string{"INTEGER:8", "INTEGER:8"}},
+		{`if (Leave) { foreach Count in [7, 8, 9] { if (Count == 8) { return "left"; } } } foreach other in [1] { got = Count; } return got;`,
+			[]map[string]interface{}{{"Count": 3, "Leave": true}, {"Count": 4, "Leave": false}, {"Leave": false}}, []string{"STRING:left", "INTEGER:4", "NULL:null"}},
+		{`function boom(Size) { return Size / Zero; } if (Bad) { x = boom(9); } function peek() { return Size; } foreach e in [1] { s = Size; } return [s, peek()];`,
+			[]map[string]interface{}{{"Size": 1, "Bad": true, "Zero": 0}, {"Size": 2, "Bad": false}, {"Bad": false}}, []string{"error", "ARRAY:[2, 2]", "ARRAY:[null, null]"}},
+		{`function outer(Name) { return middle(); } function middle() { foreach i in [1] { n = Name; } return n; } a = outer("param"); b = middle(); return [a, b];`,
+			[]map[string]interface{}{{"Name": "field"}}, []string{"ARRAY:[param, field]"}},
+	}
+	for ci, tc := range cases {
+		for _, noOpt := range []bool{false, true} {
+			id := fmt.Sprintf("dead-names/%d/%v", ci, noOpt)
+			if !c.Want(id) {
+				continue
+			}
+			evr, err := eng.New(tc.script, eng.Options{NoOptimize: noOpt})
+			c.Case(id, true)
+			if err != nil {
+				c.Violation(id, "prepare", map[string]interface{}{"summary": "Prepare failed: " + err.Error(), "script": tc.script})
+				continue
+			}
+			for round := 0; round < 2; round++ {
+				for oi, obj := range tc.objs {
+					o := evr.Exec(obj)
+					if o.Desc() != tc.want[oi] {
+						c.Violation(id, "a name that is gone hides a field", map[string]interface{}{
+							"summary": fmt.Sprintf("%s over %v (noopt=%v, round %d) gives %s %s, expected %s", tc.script, obj, noOpt, round+1, o.Desc(), errText(o.Err), tc.want[oi]), "script": tc.script})
+						round = 2
+						break
+					}
+				}
 			}
 		}
 	}
